@@ -77,6 +77,9 @@ def gen(seed, run, tier='quick'):
                     elif x < 0.6:
                         table[f"{a}{b}"] = ['raise']
         gconvs.append({'kind': kind, 'table': table})
+    if rng.random() < 0.3:
+        # twins among the generic converters, too
+        gconvs[-1] = dict(gconvs[0])
     # swarm: op mix
     w = {
         'enter': rng.choice([2, 4, 6]),
